@@ -4,6 +4,7 @@ import (
 	"fmt"
 	"go/token"
 	"go/types"
+	"sort"
 
 	"golang.org/x/tools/go/ssa"
 
@@ -59,7 +60,7 @@ func stepSummary(f *ssa.Function, typ, field string, depth int) stepEffect {
 				stores = append(stores, st)
 			}
 		}
-		if c := core.Callee(i); c != nil && c.Signature.Recv() != nil && core.TypeIs(c.Signature.Recv().Type(), typ) {
+		if c := core.Callee(i); c != nil && core.TypeIs(recvType(c), typ) {
 			if stepSummary(c, typ, field, depth-1).kind != 0 {
 				calls = true
 			}
@@ -93,7 +94,7 @@ func stepOnPath(p core.Path, typ, field string, onInstr func(i ssa.Instruction, 
 		if _, isDefer := i.(*ssa.Defer); isDefer {
 			return // deferred effects are applied at RunDefers by the caller of stepOnPath if needed
 		}
-		if c := core.Callee(i); c != nil && c.Signature.Recv() != nil && core.TypeIs(c.Signature.Recv().Type(), typ) {
+		if c := core.Callee(i); c != nil && core.TypeIs(recvType(c), typ) {
 			switch e := stepSummary(c, typ, field, 3); e.kind {
 			case 1:
 				set, known, val = true, true, e.val
@@ -145,6 +146,9 @@ func byteSeq(v ssa.Value) (parts []ssa.Value, ok bool) {
 		if n, isC := core.ConstInt(x.Len); isC && n == 0 {
 			return nil, true
 		}
+		if parts, ok := copySeq(x); ok {
+			return parts, true
+		}
 		return nil, false
 	case *ssa.Call:
 		if b, isB := x.Call.Value.(*ssa.Builtin); isB && b.Name() == "append" && len(x.Call.Args) == 2 {
@@ -155,6 +159,12 @@ func byteSeq(v ssa.Value) (parts []ssa.Value, ok bool) {
 			return append(base, x.Call.Args[1]), true
 		}
 		if parts, ok := helperSeq(x); ok {
+			return parts, true
+		}
+		if parts, ok := joinSeq(x); ok {
+			return parts, true
+		}
+		if parts, ok := bufferSeq(x); ok {
 			return parts, true
 		}
 		return []ssa.Value{x}, true
@@ -331,4 +341,267 @@ func paramOf(part ssa.Value, g *ssa.Function) int {
 		}
 	}
 	return -1
+}
+
+// joinSeq:  bytes.Join([][]byte{a, b, c}, nil)  is the sequence [a b c].
+func joinSeq(call *ssa.Call) ([]ssa.Value, bool) {
+	if !core.IsCall(call, "bytes.Join") {
+		return nil, false
+	}
+	args := core.Args(call)
+	if !core.IsNilConst(args[1]) {
+		if n, ok := knownLen(args[1]); !ok || n != 0 {
+			return nil, false
+		}
+	}
+	sl, ok := args[0].(*ssa.Slice)
+	if !ok || sl.Low != nil || sl.High != nil {
+		return nil, false
+	}
+	a, ok := sl.X.(*ssa.Alloc)
+	if !ok {
+		return nil, false
+	}
+	arr, ok := a.Type().(*types.Pointer).Elem().Underlying().(*types.Array)
+	if !ok {
+		return nil, false
+	}
+	elems := make([]ssa.Value, arr.Len())
+	for _, r := range *a.Referrers() {
+		ia, ok := r.(*ssa.IndexAddr)
+		if !ok {
+			continue
+		}
+		k, isK := core.ConstInt(ia.Index)
+		if !isK || k < 0 || k >= arr.Len() {
+			return nil, false
+		}
+		for _, rr := range *ia.Referrers() {
+			if st, ok := rr.(*ssa.Store); ok && st.Addr == ssa.Value(ia) {
+				if elems[k] != nil {
+					return nil, false
+				}
+				elems[k] = st.Val
+			}
+		}
+	}
+	for _, e := range elems {
+		if e == nil {
+			return nil, false
+		}
+	}
+	return elems, true
+}
+
+// bufferSeq:  var b bytes.Buffer; b.Write(x); b.WriteString(s); b.WriteByte(c); ... b.Bytes()  is the sequence of the written
+// pieces, provided the buffer is local, every write happens unconditionally before the Bytes call (each write dominates the
+// next and the Bytes call) and nothing else touches the buffer.
+func bufferSeq(call *ssa.Call) ([]ssa.Value, bool) {
+	if !core.IsCall(call, "(*bytes.Buffer).Bytes") && !core.IsCall(call, "(*bytes.Buffer).String") {
+		return nil, false
+	}
+	buf, ok := call.Call.Args[0].(*ssa.Alloc)
+	if !ok {
+		return nil, false
+	}
+	var writes []*ssa.Call
+	for _, r := range *buf.Referrers() {
+		c, ok := r.(*ssa.Call)
+		if !ok {
+			if _, isDbg := r.(*ssa.DebugRef); isDbg {
+				continue
+			}
+			return nil, false // the buffer escapes or is overwritten
+		}
+		if c == call {
+			continue
+		}
+		g := c.Call.StaticCallee()
+		if g == nil || len(c.Call.Args) == 0 || c.Call.Args[0] != ssa.Value(buf) {
+			return nil, false
+		}
+		switch core.QualName(g) {
+		case "(*bytes.Buffer).Write", "(*bytes.Buffer).WriteString", "(*bytes.Buffer).WriteByte":
+			writes = append(writes, c)
+		case "(*bytes.Buffer).Bytes", "(*bytes.Buffer).String", "(*bytes.Buffer).Len":
+		default:
+			return nil, false
+		}
+	}
+	// order by dominance: a total chain ending in the Bytes call
+	sort.SliceStable(writes, func(i, j int) bool { return instrDominates(writes[i], writes[j]) })
+	for i := 0; i+1 < len(writes); i++ {
+		if !instrDominates(writes[i], writes[i+1]) {
+			return nil, false
+		}
+	}
+	for _, w := range writes {
+		if !instrDominates(w, call) || !instrDominates(buf, w) || cycleAvoiding(w, buf) {
+			return nil, false
+		}
+	}
+	var parts []ssa.Value
+	for _, w := range writes {
+		parts = append(parts, w.Call.Args[1])
+	}
+	return parts, true
+}
+
+// inLoop: block b lies on a cycle of its function.
+func inLoop(b *ssa.BasicBlock) bool {
+	seen := map[*ssa.BasicBlock]bool{}
+	work := append([]*ssa.BasicBlock(nil), b.Succs...)
+	for len(work) > 0 {
+		x := work[len(work)-1]
+		work = work[:len(work)-1]
+		if x == b {
+			return true
+		}
+		if seen[x] {
+			continue
+		}
+		seen[x] = true
+		work = append(work, x.Succs...)
+	}
+	return false
+}
+
+// copySeq:  m := make([]byte, len(a)+len(b)+len(c)); n := copy(m, a); n += copy(m[n:], b); copy(m[n:], c)  is the sequence
+// [a b c]: every copy targets the buffer at the offset that is the sum of the lengths (or copy results) of all earlier pieces,
+// the copies run unconditionally in that order, and the buffer's length is the sum of the pieces' lengths.
+func copySeq(m *ssa.MakeSlice) ([]ssa.Value, bool) {
+	type cp struct {
+		call *ssa.Call
+		low  ssa.Value
+		src  ssa.Value
+	}
+	var cps []cp
+	for _, r := range *m.Referrers() {
+		switch x := r.(type) {
+		case *ssa.DebugRef:
+		case *ssa.Call:
+			if b, ok := x.Call.Value.(*ssa.Builtin); ok && b.Name() == "copy" && x.Call.Args[0] == ssa.Value(m) {
+				cps = append(cps, cp{x, nil, x.Call.Args[1]})
+			}
+			// other uses (the consumer of the finished buffer) are fine
+		case *ssa.Slice:
+			if x.High != nil || x.Max != nil {
+				return nil, false
+			}
+			for _, rr := range *x.Referrers() {
+				c, ok := rr.(*ssa.Call)
+				if !ok {
+					if _, isDbg := rr.(*ssa.DebugRef); isDbg {
+						continue
+					}
+					return nil, false
+				}
+				b, ok := c.Call.Value.(*ssa.Builtin)
+				if !ok || b.Name() != "copy" || c.Call.Args[0] != ssa.Value(x) {
+					return nil, false
+				}
+				cps = append(cps, cp{c, x.Low, c.Call.Args[1]})
+			}
+		case *ssa.IndexAddr, *ssa.Store:
+			return nil, false
+		}
+	}
+	if len(cps) < 2 {
+		return nil, false
+	}
+	sort.SliceStable(cps, func(i, j int) bool { return instrDominates(cps[i].call, cps[j].call) })
+	for i := range cps {
+		// every execution of a copy belongs to a fresh buffer: no cycle through the copy that avoids the make
+		if i+1 < len(cps) && !instrDominates(cps[i].call, cps[i+1].call) || !instrDominates(m, cps[i].call) || cycleAvoiding(cps[i].call, m) {
+			return nil, false
+		}
+	}
+	// offsets: the k-th copy starts at the sum over pieces 0..k-1
+	var terms func(v ssa.Value, k int, used map[int]bool) bool
+	terms = func(v ssa.Value, k int, used map[int]bool) bool {
+		v = core.StripConv(v)
+		if b, ok := v.(*ssa.BinOp); ok && b.Op == token.ADD {
+			return terms(b.X, k, used) && terms(b.Y, k, used)
+		}
+		for j := 0; j < k; j++ {
+			if used[j] {
+				continue
+			}
+			if v == ssa.Value(cps[j].call) || isLenOfPiece(v, cps[j].src) {
+				used[j] = true
+				return true
+			}
+		}
+		return false
+	}
+	for k := range cps {
+		used := map[int]bool{}
+		if k == 0 {
+			if cps[k].low != nil {
+				if z, ok := core.ConstInt(cps[k].low); !ok || z != 0 {
+					return nil, false
+				}
+			}
+			continue
+		}
+		if cps[k].low == nil || !terms(cps[k].low, k, used) || len(used) != k {
+			return nil, false
+		}
+	}
+	// total length = sum of all pieces
+	used := map[int]bool{}
+	all := len(cps)
+	var total func(v ssa.Value) bool
+	total = func(v ssa.Value) bool {
+		v = core.StripConv(v)
+		if b, ok := v.(*ssa.BinOp); ok && b.Op == token.ADD {
+			return total(b.X) && total(b.Y)
+		}
+		for j := 0; j < all; j++ {
+			if !used[j] && isLenOfPiece(v, cps[j].src) {
+				used[j] = true
+				return true
+			}
+		}
+		return false
+	}
+	if !total(m.Len) || len(used) != all {
+		return nil, false
+	}
+	var parts []ssa.Value
+	for _, c := range cps {
+		parts = append(parts, c.src)
+	}
+	return parts, true
+}
+
+// isLenOfPiece: v is len(x) for the value x (or for the array/string x is a slice or conversion of), or the constant length of x.
+func isLenOfPiece(v, x ssa.Value) bool {
+	if call, ok := v.(*ssa.Call); ok {
+		if b, isB := call.Call.Value.(*ssa.Builtin); isB && b.Name() == "len" {
+			a := call.Call.Args[0]
+			if sameValue(a, x) || sameValue(core.StripConv(a), core.StripConv(x)) {
+				return true
+			}
+			if sl, ok := x.(*ssa.Slice); ok && sl.Low == nil && sl.High == nil {
+				// len(arr) for x = arr[:]
+				if u, ok := a.(*ssa.UnOp); ok && u.X == sl.X {
+					return true
+				}
+				if fa, ok := sl.X.(*ssa.FieldAddr); ok {
+					if u, ok := a.(*ssa.UnOp); ok {
+						if fb, ok := u.X.(*ssa.FieldAddr); ok && fb.Field == fa.Field && sameValue(fb.X, fa.X) {
+							return true
+						}
+					}
+				}
+			}
+		}
+	}
+	if k, ok := core.ConstInt(v); ok {
+		if n, ok := knownLen(x); ok && n == k {
+			return true
+		}
+	}
+	return false
 }
